@@ -202,7 +202,7 @@ class Exec:
         if k == 'field':
             c, kk = s.slot(frame, p[1]); v = c[kk]
             if isinstance(v, (Agg, ClosureVal)): return v.fields, p[2]
-            raise Unsupported('field of %r' % (v,))
+            raise Unsupported('field of %r in place %r fn %s' % (v, p, s.stack[-1][-60:]))
         if k == 'index':
             c, kk = s.slot(frame, p[1]); v = c[kk]; i = frame[p[2]]
             items = v.items if isinstance(v, PyVec) else v.fields
@@ -345,7 +345,13 @@ class Exec:
             ev = s.variant_value(m.group(1), None, named)
             if ev is not None: return ev
             sname = re.sub(r'::<.*', '', m.group(1)).split('::')[-1]
-            if sname in s.W.structs: return Agg(sname, 0, [named[f] for f in s.W.structs[sname]])
+            if sname in s.W.structs:
+                order = s.W.structs[sname]
+                if set(order) != set(named):
+                    alts = [v for (m_, n_), v in getattr(s.W, 'qstructs', {}).items() if n_ == sname and set(v) == set(named)]
+                    if len(alts) == 1: order = alts[0]
+                    else: raise Unsupported('struct fields ambiguous ' + txt[:80])
+                return Agg(sname, 0, [named[f] for f in order])
             raise Unsupported('aggregate ' + txt)
         # tuple-like variant / struct: Path(op, ..)   (appears as rvalue e.g. Option::<usize>::Some(move _9))
         m = re.fullmatch(r'([\w:<>\', &\[\]\(\)]+?)\((.*)\)', txt)
